@@ -20,3 +20,4 @@ var ErrRscpProtVersionMismatch = errors.New("ERR_PROT_VERSION_MISMATCH")
 var ErrRscpInvalidFrameLength = errors.New("ERR_INVALID_FRAME_LENGTH")
 var ErrRscpInvalidCrc = errors.New("ERR_INVALID_CRC")
 var ErrRscpDataLimitExceeded = errors.New("ERR_DATA_LIMIT_EXCEEDED")
+var ErrRscpInvalidDataType = errors.New("ERR_INVALID_DATA_TYPE")
